@@ -654,6 +654,8 @@ void body()
         "signal/callbacks-invoked", "signal/reentrant-calls-from-unregister"})
     vf::require_bucket(b);
   std::uint64_t total = vf::tier<std::uint64_t>(30000, 1000000);
+  if (vf::has_extra("--small")) // the memcheck pass
+    total = 48000;
   drive<list_runner>("intrusive-list", total);
   using s_void = fcppt::signal::object<void(int)>;
   using s_int = fcppt::signal::object<int(int)>;
